@@ -30,6 +30,13 @@ def gen(rng, tier, ds):
     add([wc.enc_q(0, ("E", b"a", b"", 3), [])])                    # unresolved placeholder
     add([wc.enc_q(0, probe, [b"nosuch"])])
     add([])                                                        # empty batch
+    # requests the library rejects at evaluation time (unknown column), in every position
+    bad = ("E", b"nosuch", b"1", 0)
+    for t in (("N", bad), ("N", ("N", bad)), ("A", [probe, ("N", bad)]), ("O", [("N", ("O", [probe, bad])), probe]), ("A", [bad]), ("O", [probe, bad, probe]),
+              ("N", ("A", [probe, ("O", [bad])])), ("A", [("N", probe), ("N", bad), ("N", probe)])):
+        add([wc.enc_q(0, t, [])])
+        add([wc.enc_q(0, t, [b"a"])])
+    add([wc.enc_q(0, probe, [b"a"])])
     for d in ([50, 400] if tier == "quick" else [50, 400, 3000]):
         t = probe
         for _ in range(d):
@@ -69,7 +76,7 @@ def compare(rep, reqs, impl, model, where, lines, stats):
         if cls in seen:
             continue
         seen.add(cls)
-        rep.violation("correspondence" if (a or "").split()[:1] not in (["PANIC"], ["DOWN"]) else "monitor:crash",
+        rep.violation("correspondence" if (a or "").split()[:1] not in (["PANIC"], ["DOWN"], ["HANG"]) else "monitor:crash",
                       "%s: request %s -> implementation %s, model %s" % (where, " ; ".join(q[:120] for q in qs)[:300], str(a)[:160], b[:160]),
                       {"where": where, "request": qs, "impl": a, "model": b, "dataset_lines": lines[:45],
                        "how": "WQ <id> (NONE | X <tree>) GB ..: trees use U = expression without value, N0 = Not without operand"})
